@@ -194,6 +194,7 @@ package encoding
 //@   at call Sequence).NumPeriods after inscope assert cap_lo: scale >= 1 && abs(newAsOf) <= abs(otherUntil) - otherPeriods*otherResolution && untilOffset >= 0 && untilOffset*otherResolution == abs(resultUntil) - abs(otherUntil)
 //@   at call Sequence).NumPeriods after inscope assert cap_hi: scale >= 1 && callresult0*resolution >= abs(resultUntil) - abs(newAsOf)
 //@   at call Sequence).NumPeriods after inscope assert cap: scale >= 1 && callresult0*resolution >= abs(resultUntil) - (abs(otherUntil) - otherPeriods*otherResolution)
+//@   at call dyn:submerge assert only_periods_inside_window: untilOf(other) - po*otherResolution > abs(asOf) && untilOf(other) - po*otherResolution <= abs(until)
 //@   callback submerge modifies callarg0[0:w]
 //@   loop 0 invariant po_range: 0 <= po && po <= otherPeriods
 //@   loop 0 invariant hdr_result: untilOf(result) == abs(resultUntil) && len(result) >= 8
